@@ -414,6 +414,11 @@ def replay(rp):
             sc = rp["scenario"]
             rc, out, err = run_scenario(root, sc)
             return not scenario_oracle(sc, rc, out, err)
+        if rp.get("kind") == "multi":
+            ext, allm, seq = rp["ext"], rp["all"], tuple(rp["seq"])
+            singles = {i: run_multi(root, (ext, False, (i,), [], "."))[1] for i in set(seq)}
+            rc, out, err = run_multi(root, (ext, allm, seq, [], "."))
+            return rc == 0 and out == b"".join(singles[i] for i in seq)
         if rp.get("kind") == "sink":
             case = [c for c in sink_cases() if c[0] == rp["case"]][0]
             return sink_oracle(run_sink_case(root, case, None), run_sink_case(root, case, rp["sink"])) is None
@@ -428,6 +433,39 @@ def replay(rp):
         return False
     finally:
         shutil.rmtree(root, ignore_errors=True)
+
+
+# ---------------------------------------------------------------------------
+# (D) several input files per input format: the decoder object is shared by all files of a run
+MULTI_INPUTS = {
+    "yml": ["a: zq1\n", "b: zq2\n"], "json": ['{"a": "zq1"}\n', '{"b": "zq2"}\n'],
+    "properties": ["a.b = zq1\n", "c.d = zq2\n"], "csv": ["h1,h2\nzq1,1\n", "h1,h2\nzq2,2\n"],
+    "tsv": ["h1\th2\nzq1\t1\n", "h1\th2\nzq2\t2\n"], "xml": ["<a>zq1</a>\n", "<b>zq2</b>\n"],
+    "toml": ['a = "zq1"\n', 'b = "zq2"\n'], "lua": ['return {a = "zq1"}\n', 'return {b = "zq2"}\n'],
+    "base64": ["enEx", "enEy"], "uri": ["zq%201", "zq%202"],
+}
+
+
+def multi_jobs():
+    """(ext, eval-all?, sequence of file indices, extra flags, expression)"""
+    jobs = []
+    for ext in MULTI_INPUTS:
+        for seq in ((0,), (1,), (0, 1), (1, 0), (0, 0), (0, 1, 0), (1, 1, 0)):
+            for allm in (False, True):
+                jobs.append((ext, allm, seq, [], "."))
+        jobs.append((ext, False, (0, 1), ["-e"], '.. | select(. == "zq2" or . == "zq 2")'))
+    return jobs
+
+
+def run_multi(root, job):
+    ext, allm, seq, flags, expr = job
+    d = sandbox(root)
+    try:
+        for i, txt in enumerate(MULTI_INPUTS[ext]):
+            open(os.path.join(d, "f%d.%s" % (i, ext)), "w").write(txt)
+        return yq((["ea"] if allm else []) + flags + ["-o=json", "-I=0", expr] + ["f%d.%s" % (i, ext) for i in seq], d)
+    finally:
+        shutil.rmtree(d, ignore_errors=True)
 
 
 def sink_cases():
@@ -570,6 +608,54 @@ def run(chk):
         chk.extra["encoder_table_cells"] = len(cells)
         chk.extra["encoder_table_swallowed"] = sorted(k for k, v in table.items() if v == 2)
 
+        # ---------------- (D) two or more input files for every input format ----------------
+        mjobs = multi_jobs()
+        mobs = list(pool.map(lambda j: run_multi(root, j), mjobs))
+        single = {(j[0], j[2][0]): o for j, o in zip(mjobs, mobs) if len(j[2]) == 1 and not j[1] and not j[3]}
+        cases = []
+        mjob_idx = []
+        for job, (rc, out, err) in zip(mjobs, mobs):
+            ext, allm, seq, flags, expr = job
+            chk.count(("multi", ext, allm, seq, tuple(flags)), nontrivial=len(seq) > 1)
+            if flags:
+                # -e: the only match lives in the second file
+                if rc != 0 or (b"zq2" not in out and b"zq 2" not in out):
+                    report({"kind": "multi-e", "ext": ext, "rc": rc, "stdout": out.decode("utf-8", "replace")[:200]}, None,
+                           "-e over f0.%s f1.%s: the match in the second file is not seen (exit %d)" % (ext, ext, rc))
+                continue
+            want = b"".join(single[(ext, i)][1] for i in seq)
+            ok_single = all(single[(ext, i)][0] == 0 and single[(ext, i)][1] for i in seq)
+            if not ok_single:
+                report({"kind": "multi", "ext": ext, "all": allm, "seq": list(seq)}, None, "a single .%s input does not decode" % ext)
+                continue
+            if rc != 0 or out != want:
+                report({"kind": "multi", "ext": ext, "all": allm, "seq": list(seq), "rc": rc, "stdout": out.decode("utf-8", "replace")[:300],
+                        "expected": want.decode("utf-8", "replace")[:300]}, None,
+                       "yq %s-o=json -I=0 . %s: exit %d, output differs from the concatenation of the single-file runs (a decoder keeps state across files?)"
+                       % ("ea " if allm else "", " ".join("f%d.%s" % (i, ext) for i in seq), rc))
+            # the model: one document with one result per file, formats from the first file's extension
+            shown, pos = [], 0
+            for n, i in enumerate(seq):
+                piece = single[(ext, i)][1]
+                if out[pos:pos + len(piece)] == piece:
+                    shown.append(n + 1)
+                    pos += len(piece)
+            names = ["g%d.%s" % (n, ext) for n in range(len(seq))]
+            res = ["mkRes %d (NScalar TagStr [%d])" % (n + 1, 48 + n) for n in range(len(seq))]
+            tbl = "[" + "; ".join("(%s, Docs [DocOk (EvalOk [%s])])" % (vlib.coq_str(nm), r) for nm, r in zip(names, res)) + "]"
+            cli = "(mkCli %s [] %s false [%s] false false false false None false false)" % (
+                "true" if allm else "false", vlib.coq_str("json"), "; ".join(vlib.coq_str(nm) for nm in names))
+            cases.append(("(%s, %s, (true, (EvalOk []), (EvalOk [%s])), true)" % (cli, tbl, "; ".join(res)),
+                          [rc, 1 if err.strip() else 0, 0, len(shown)] + shown))
+            mjob_idx.append(job)
+        mism, err = vlib.coq_mismatches(chk.workdir, "c19_multi", IMPORTS, "c19_run_case", cases, shard=max(60, len(cases) // vlib.NCPU + 1))
+        if err:
+            broken.append("model evaluation failed (multi-file): " + err[-500:])
+        else:
+            for i, mo in mism:
+                disagreements.append(("several input files", repr(mjob_idx[i]), cases[i][1], list(mo)))
+        chk.extra["multi_file_runs"] = len(mjobs)
+
         # ---------------- -e spelling (direct) ----------------
         for doc, want in (("a: false\n", 1), ("a: False\n", 1), ("a: FALSE\n", 1), ("a: null\n", 1), ("a: ~\n", 1), ("a: 0\n", 0), ("a: \"false\"\n", 0), ("b: 1\n", 1)):
             d = sandbox(root)
@@ -659,7 +745,9 @@ def run(chk):
              "files, undecodable documents, evaluation errors and unencodable results at any position x -e -n -N -r -0 -o; observables exit "
              "status, stderr non-empty, which results are on stdout; half of them (all in the thorough tier) again with an output that rejects every write "
              "(/dev/full, read-only descriptor), plus fixed cases below and above the 4096-byte buffer, failure on the last / a non-last result: a failed write => "
-             "non-zero exit and a message on stderr. Non-trivial: container kinds / multi-file or multi-document runs."
+             "non-zero exit and a message on stderr. (D) for every input format with a decoder (yaml, json, props, csv, tsv, xml, toml, lua, base64, uri) one, two and "
+             "three input files (also the same file twice, both orders) in eval and eval-all: the output must be the concatenation of the single-file runs, "
+             "and -e must see a match that lives in the second file. Non-trivial: container kinds / multi-file or multi-document runs."
              % (len(FILENAMES), len(KINDS), len(FORMATS)),
         trusted=vlib.COMMON_TRUSTED + [
             "Spec/CliSpec.v (hand-written: expected results of a complete run, -e rule)",
